@@ -2,8 +2,8 @@
 (* Trace specification (kind T) for C06: judges the traces of harness/suites/jstok against JsTokens.tla.          *)
 (* Open carries what JsTokensGen derived for the input (expected kinds, byte ranges of the units, the token that *)
 (* precedes a RegExp() call) or free = TRUE for an input nobody derived; every Tok event is one report of the     *)
-(* lexer.  Accepted: every report satisfies TokenInv, and - unless free - the reports are exactly the expected    *)
-(* tokens followed by the end of input.                                                                           *)
+(* lexer, End that the driver stopped.  Accepted: every report satisfies TokenInv, and - unless free - the        *)
+(* reports are exactly the expected tokens followed by the end of input.                                          *)
 EXTENDS JsTokens, TraceIO
 
 VARIABLES exp, idx, free, l, bad
@@ -25,9 +25,15 @@ Tok == /\ e.ev = "Tok"
        /\ idx' = idx + 1
        /\ UNCHANGED <<exp, free>>
 
+\* the driver stopped calling: unless free, that was after the expected tokens and the end report
+End == /\ e.ev = "End"
+       /\ (~free => idx = Len(exp) + 2)
+       /\ UNCHANGED pvars
+Step == Tok \/ End
+
 TStart == l <= NEvents /\ IsStart /\ Open /\ bad' = FALSE /\ l' = l + 1
-TStep  == l <= NEvents /\ ~IsStart /\ ~bad /\ Returned /\ Tok /\ l' = l + 1 /\ UNCHANGED bad
-TFail  == /\ l <= NEvents /\ ~IsStart /\ ~bad /\ ~(Returned /\ ENABLED Tok)
+TStep  == l <= NEvents /\ ~IsStart /\ ~bad /\ Returned /\ Step /\ l' = l + 1 /\ UNCHANGED bad
+TFail  == /\ l <= NEvents /\ ~IsStart /\ ~bad /\ ~(Returned /\ ENABLED Step)
           /\ RecordFail(e, l) /\ bad' = TRUE /\ l' = l + 1 /\ UNCHANGED pvars
 TSkip  == l <= NEvents /\ ~IsStart /\ bad /\ l' = l + 1 /\ UNCHANGED <<pvars, bad>>
 TNext == TStart \/ TStep \/ TFail \/ TSkip
